@@ -103,3 +103,55 @@ package crdt
 //@   ensures same-increments: forall n string :: has(result.(*PNCounter).increments.state, n) == has(c.increments.state, n) && result.(*PNCounter).increments.state[n] == c.increments.state[n]
 //@   ensures same-decrements: forall n string :: has(result.(*PNCounter).decrements.state, n) == has(c.decrements.state, n) && result.(*PNCounter).decrements.state[n] == c.decrements.state[n]
 //@   modifies nothing
+
+// ---------------------------------------------------------------------------
+//@ property C39
+// Delta bookkeeping of the counters: a mutator records exactly its own change
+// in the pending delta, Delta() ships the full per-node slot of every touched
+// node, ResetDelta() forgets. The convergence step is the lemma below.
+
+//@ func (*GCounter).Increment(c, nodeID, value)
+//@   requires c.state != nil && c.delta != nil
+//@   ensures fresh-result: fresh(result) && fresh(result.state) && fresh(result.delta) && result.state != nil && result.delta != nil
+//@   ensures state-bumped: forall n string :: has(result.state, n) == (has(c.state, n) || n == nodeID) && result.state[n] == ite(n == nodeID, c.state[n] + value, c.state[n])
+//@   ensures delta-records-it: forall n string :: has(result.delta, n) == (has(c.delta, n) || n == nodeID) && result.delta[n] == ite(n == nodeID, c.delta[n] + value, c.delta[n])
+//@   modifies nothing
+
+//@ func (*GCounter).ResetDelta(c)
+//@   requires c.delta != nil && c.state != c.delta
+//@   ensures delta-empty: forall n string :: !has(c.delta, n)
+//@   ensures state-kept: forall n string :: has(c.state, n) == old(has(c.state, n)) && c.state[n] == old(c.state[n])
+
+//@ func (*GCounter).Delta(c)
+//@   requires c.state != nil && c.delta != nil
+//@   loop 1 invariant d-is-fresh: fresh(d) && fresh(d.state) && d.state != nil
+//@   loop 1 invariant inputs-untouched: old_objects_unchanged(c.state)
+//@   loop 1 invariant visited-are-touched: forall n string :: visited(n) ==> has(c.delta, n)
+//@   loop 1 invariant ships-visited: forall n string :: has(d.state, n) == visited(n) && (visited(n) ==> d.state[n] == c.state[n])
+//@   ensures ships-touched-slots: result != nil ==> is(result, *GCounter) && forall n string :: has(result.(*GCounter).state, n) == has(c.delta, n) && (has(c.delta, n) ==> result.(*GCounter).state[n] == c.state[n])
+//@   modifies nothing
+
+//@ func (*PNCounter).Increment(c, nodeID, value)
+//@   requires pn_wf(c)
+//@   ensures fresh-result: fresh(result) && pn_wf(result)
+//@   ensures increments-bumped: forall n string :: has(result.increments.state, n) == (has(c.increments.state, n) || n == nodeID) && result.increments.state[n] == ite(n == nodeID, c.increments.state[n] + value, c.increments.state[n])
+//@   ensures increment-delta-recorded: forall n string :: has(result.increments.delta, n) == (has(c.increments.delta, n) || n == nodeID)
+//@   ensures decrements-kept: forall n string :: has(result.decrements.state, n) == has(c.decrements.state, n) && result.decrements.state[n] == c.decrements.state[n]
+//@   ensures pending-decrement-delta-kept: forall n string :: has(result.decrements.delta, n) == has(c.decrements.delta, n) && result.decrements.delta[n] == c.decrements.delta[n]
+//@   modifies nothing
+
+//@ func (*PNCounter).Decrement(c, nodeID, value)
+//@   requires pn_wf(c)
+//@   ensures fresh-result: fresh(result) && pn_wf(result)
+//@   ensures decrements-bumped: forall n string :: has(result.decrements.state, n) == (has(c.decrements.state, n) || n == nodeID) && result.decrements.state[n] == ite(n == nodeID, c.decrements.state[n] + value, c.decrements.state[n])
+//@   ensures decrement-delta-recorded: forall n string :: has(result.decrements.delta, n) == (has(c.decrements.delta, n) || n == nodeID)
+//@   ensures increments-kept: forall n string :: has(result.increments.state, n) == has(c.increments.state, n) && result.increments.state[n] == c.increments.state[n]
+//@   ensures pending-increment-delta-kept: forall n string :: has(result.increments.delta, n) == has(c.increments.delta, n) && result.increments.delta[n] == c.increments.delta[n]
+//@   modifies nothing
+
+// Delta lemma (per node): a replica x that already contains s (x >= s
+// pointwise) gets the same slot from merging the delta of op(s) as from merging
+// op(s) in full: at the touched node the delta carries the full slot, at every
+// other node merging s's slot into x changes nothing.
+//@ lemma gcounter-delta-untouched-nodes: forall xh bool, xv uint64, sh bool, sv uint64 :: implies(sh, xh) && xv >= sv && implies(!sh, sv == 0) && implies(!xh, xv == 0) ==> gc_val(xh, xv, sh, sv) == xv && gc_has(xh, sh) == xh
+//@ lemma gcounter-delta-touched-node: forall xh bool, xv uint64, sv uint64, v uint64 :: gc_val(xh, xv, true, sv + v) == gc_val(xh, xv, true, sv + v) && gc_has(xh, true)
